@@ -5,7 +5,7 @@
    "nothing remains".  [good] packages exactly that. *)
 From Coq Require Import ZArith List Bool.
 From V Require Import Model.Num Model.Status Model.Sim Model.SimLoop Model.Examples
-  Proofs.SimPlaceP Proofs.SimPlaceP2 Proofs.SimTradedP Proofs.SimBucketsP Proofs.SimLiftP.
+  Proofs.SimPlaceP Proofs.SimPlaceP2 Proofs.SimTradedP Proofs.SimBucketsP Proofs.SimLiftP Model.SimGuard Proofs.SimRunP.
 Open Scope Z_scope.
 
 Theorem C04_good_is_conserved : forall o, good o ->
@@ -16,8 +16,8 @@ Print Assumptions C04_good_is_conserved.
 (* LIFT to the matching loop of a market update: for ANY number of orders and strategies (isolation on), any traded volume with non-negative
    amounts, a book that does not reconcile starting prices: after the whole matching of the update every limit order of the market is still
    consistent (ok_order: positive fragments summing to the matched size, remaining >= 0, queue position >= 0); the completion sweep and a
-   simulated cancel keep it so.  (Arrival fills, starting-price conversion and runner removal are covered by the per-primitive theorems below;
-   their lift over whole runs is checked on the implementation, not proved.) *)
+   simulated cancel keep it so.  (The lift over whole runs is C04_run_conserves at the end of this file; starting-price conversion and runner removal are outside it and are
+   covered by the per-primitive theorems below and the correspondence.) *)
 Theorem C04_matching_keeps_orders_consistent : forall tb cf b ans os, cf_isolation cf = true -> b_bsp_rec b = false ->
   Forall ok_order os -> Forall (fun a => ok_traded (an_traded a)) ans -> Forall ok_order (process_sim_orders tb cf b ans os).
 Proof. exact process_sim_orders_ok. Qed.
@@ -95,3 +95,65 @@ Proof.
   unfold good. vm_compute. repeat split; try discriminate; constructor.
 Qed.
 Print Assumptions C04_void_refuted.
+
+(* ===================== whole runs ===================== *)
+(* Placement (SimulatedOrder.place) of an order that has not been placed before keeps it sound on EVERY path of the function: market not open,
+   stale market version, removed runner, fill-or-kill (size below the minimum fill, priced behind / at / through the best price, killed or
+   filled), best-price execution off, match on arrival down the ladder, rest in the queue, and clients with simulated full match. *)
+Theorem C04_placement_conserves_on_every_path : forall tb c ms b mv o,
+  so_type o = TLimit -> untouched o -> 0 <= so_size o -> 0 < so_price o -> 0 <= so_piq2 o ->
+  (forall r, find_runner b (so_sel o) = Some r -> wf_runner r) ->
+  soundL (fst (sim_place tb c ms b mv o)).
+Proof. exact sim_place_sound. Qed.
+Print Assumptions C04_placement_conserves_on_every_path.
+
+Theorem C04_sound_is_conserved : forall o, soundL o ->
+  so_size o = so_matched o + remaining o + so_cancelled o + so_lapsed o + so_voided o /\
+  0 <= so_matched o /\ 0 <= remaining o /\ 0 <= so_cancelled o /\ 0 <= so_lapsed o /\ 0 <= so_voided o /\
+  so_matched o = frag_sum (so_frags o).
+Proof. exact soundL_conserved. Qed.
+
+(* One event of a run (pending packages of the market executed, then the middleware: analytics, matching with or without strategy isolation,
+   completion sweep, then every strategy's requests) keeps every order of every market sound. *)
+Theorem C04_step_keeps_every_order_sound : forall tb cf n sc s e,
+  simI s -> event_ok sc n e -> step_guard tb cf s e -> simI (step tb cf n sc s e).
+Proof. exact step_I. Qed.
+Print Assumptions C04_step_keeps_every_order_sound.
+
+(* WHOLE RUNS, any number of markets, strategies, orders and events, any interleaving of requests and their delayed execution:
+   if the run starts from markets without orders, every book is in the domain (event_b: positive ladders, non-negative traded volume, no removed
+   runner, starting prices not reconciled; CLOSED books only need the ladders) and the script's prices are positive and its sizes / reductions
+   non-negative, and every placement package finds its order as it was created (run_guard_b: evaluated by the harness on every scenario, where
+   it must be true) - then at the end of the run (hence, es being arbitrary, after every prefix) every limit order of every market satisfies
+   size = matched + remaining + cancelled + lapsed + voided with all five terms >= 0 and matched = the sum of its positive fragments. *)
+Theorem C04_run_conserves : forall tb cf n sc es s m o,
+  (forall m0, In m0 (s_markets s) -> mk_orders m0 = [] /\ mk_analytics m0 = [] /\ mk_book m0 = None) ->
+  forallb (event_b sc n) es = true -> run_guard_b tb cf n sc es s = true ->
+  In m (s_markets (fold_left (step tb cf n sc) es s)) -> In o (mk_orders m) -> so_type o = TLimit ->
+  so_size o = so_matched o + remaining o + so_cancelled o + so_lapsed o + so_voided o /\
+  0 <= so_matched o /\ 0 <= remaining o /\ 0 <= so_cancelled o /\ 0 <= so_lapsed o /\ 0 <= so_voided o /\
+  so_matched o = frag_sum (so_frags o) /\ frags_pos (so_frags o).
+Proof. exact run_conserves_b. Qed.
+Print Assumptions C04_run_conserves.
+
+(* non-vacuity: a run that satisfies both boolean hypotheses and does something - an order placed, partly matched on arrival, partly
+   cancelled, then filled passively, a second one replaced: the final buckets are listed *)
+Definition c04_bk (pt : Z) (trd : list (Z * Z)) : book :=
+  xbook pt MOpen 1 [xrunner 1 RActive None [(20000, 300)] [(21000, 500)] trd; xrunner 2 RActive None [(30000, 500)] [(32000, 500)] []].
+Definition c04_script : script := script_of
+  [(0, 1, 0, [APlace 1 1 Back (OLimit 20000 1000 PLapse false None) None; APlace 2 2 Lay (OLimit 31000 400 PPersist false None) None]);
+   (0, 1, 2, [ACancel 1 (Some 200); AReplace 2 31500 None])].
+Definition c04_events : list event :=
+  [{| ev_market := 1; ev_idx := 0; ev_book := c04_bk 1000 [] |};
+   {| ev_market := 1; ev_idx := 1; ev_book := c04_bk 1200 [] |};
+   {| ev_market := 1; ev_idx := 2; ev_book := c04_bk 1400 [(20000, 300)] |};
+   {| ev_market := 1; ev_idx := 3; ev_book := c04_bk 1800 [(20000, 900)] |};
+   {| ev_market := 1; ev_idx := 4; ev_book := xbook 2500 MClosed 2 [xrunner 1 RActive None [] [] []; xrunner 2 RActive None [] [] []] |}].
+Definition c04_init : sim := sim0 [mkmarket 1 std_static].
+Example C04_run_conserves_example :
+  forallb (event_b c04_script 1) c04_events = true /\
+  run_guard_b tb_up std_cfg 1 c04_script c04_events c04_init = true /\
+  map (fun m => map (fun o => (so_name o, [so_size o; so_matched o; remaining o; so_cancelled o; so_lapsed o; so_voided o]))
+                    (mk_orders m)) (s_markets (fold_left (step tb_up std_cfg 1 c04_script) c04_events c04_init))
+  = [[(1, [1000; 750; 50; 200; 0; 0]); (2, [400; 0; 0; 400; 0; 0]); (1000, [400; 0; 400; 0; 0; 0])]].
+Proof. vm_compute. repeat split; reflexivity. Qed.
